@@ -43,6 +43,9 @@ type differs from the inner expression's, consumed directly and through 1-3 leve
 selectables (Part A: every type over the untyped raw column; Part B: tagging decorators over plain
 columns).
 
+Part D (recording fake DBAPI): the same hostile names under pyformat / format / qmark of the
+PostgreSQL / MySQL / MariaDB drivers - the recorded parameters must be bind-processed exactly once.
+
 Modes: cext and purepy (``_processors_cy`` str_to_date/datetime/time, int_to_boolean,
 to_decimal_processor_factory; ``_row_cy`` processor application).
 
@@ -71,7 +74,8 @@ META = {
     "exhaustive": {"quick": False, "thorough": False},
     "require": ["cells_compared", "boundary_cells", "tag_cells_checked", "bind_hook_calls", "result_hook_calls",
                 "returning_cells", "orm_cells", "processor_pairs_checked", "sqltag_cells_checked",
-                "name_matched_executions", "typed_wrapper_cells", "hostile_name_rows"],
+                "name_matched_executions", "typed_wrapper_cells", "hostile_name_rows",
+                "fake_bind_values_checked"],
     "assumptions": ["type-specific comparators encode only documented precision limits (see Guards)"],
 }
 
@@ -890,9 +894,34 @@ def hostile_names_part(ctx, sa, eng, pstyle, Tag, ITag, Outer, JTag, calls, rng,
     md = sa.MetaData()
     t = sa.Table(f"hn{rnd}", md, sa.Column("id", sa.Integer, primary_key=True),
                  *[sa.Column(names[b], typ) for b, typ in bases])
+    # the String / Integer based decorators alone: a skipped bind processor is silent there (no
+    # driver error), so they also get a table of their own
+    ts = sa.Table(f"hs{rnd}", md, sa.Column("id", sa.Integer, primary_key=True),
+                  *[sa.Column(names[b], typ) for b, typ in bases[:3]])
     N = names
     md.create_all(eng)
     try:
+        svals = [{"id": i + 1, N["tag"]: f"s{ctx.shard}.{rnd}.{i}", N["itag"]: i, N["otag"]: f"s{ctx.shard}.{rnd}.{i}"}
+                 for i in range(3)]
+        n0 = len(calls["bind"])
+        with eng.begin() as c:
+            c.execute(sa.insert(ts), svals[0])
+            c.execute(sa.insert(ts), svals[1:])
+            sraw = c.exec_driver_sql("SELECT id, %s FROM %s ORDER BY id" % (", ".join(qn(N[b]) for b in ("tag", "itag", "otag")),
+                                                                           ts.name)).fetchall()
+        bc = calls["bind"][n0:]
+        ctx.count("bind_hook_calls", len(bc))
+        ds = {"paramstyle": pstyle, "names": sorted(N[b] for b in ("tag", "itag", "otag"))}
+        if len(bc) != 4 * len(svals):
+            ctx.violation("bind-hook-call-count-hostile-names", f"{len(bc)} bind hook calls for {len(svals)} rows x 4 hooks "
+                          f"({ds})", ds)
+        for (i, tg, it, ot), v in zip(sraw, svals):
+            x = v[N["tag"]]
+            ctx.count("tag_cells_checked", 3)
+            if (tg, it, ot) != (f"B[{x}]", v[N["itag"]] * 10 + 1, f"B[OB[{x}]]"):
+                ctx.violation("stored-value-bind-layers-hostile-names",
+                              f"stored {(tg, it, ot)!r} for {x!r}: bind processing not applied exactly once ({ds})", ds)
+                break
         vals = []
         for i in range(rng.randint(3, 6)):
             x = f"h{ctx.shard}.{rnd}.{i}"
@@ -1185,6 +1214,85 @@ def run(ctx):
                           f"part {name}: {e!r} raised in {where.filename.rsplit('/', 1)[-1]}:{where.name}"[:500],
                           {"part": name, "trace": traceback.format_exc()[-1500:]})
     part_c(ctx, sa)
+    part_d(ctx, sa)
+
+
+def part_d(ctx, sa):
+    """Other dialects' paramstyles (pyformat / format / qmark) at the recording fake DBAPI: INSERT
+    (single and executemany) into a table whose column names need bind-name escaping; every value
+    must reach the driver bind-processed exactly once (decorator layers visible in the value; for
+    Enum / JSON the recorded parameter is the type's own wire form)."""
+    import enum
+    import json
+
+    from vf.mon.fake_dbapi import recording_engine
+
+    rng = ctx.rng
+    calls, Tag, ITag, Outer, JTag, SqlTag = make_tags(sa)
+
+    class Mood(enum.Enum):
+        up = 1
+        down = 2
+
+    urls = ("postgresql+psycopg2://u:p@h/db", "postgresql+psycopg://u:p@h/db", "postgresql+pg8000://u:p@h/db",
+            "mysql+pymysql://u:p@h/db", "mysql+mysqldb://u:p@h/db", "mariadb+mariadbconnector://u:p@h/db")
+    for k, url in enumerate(urls):
+        shift = k + ctx.shard
+        bases = [("tag", Tag()), ("itag", ITag()), ("otag", Outer()), ("mood", sa.Enum(Mood, native_enum=False, length=10)),
+                 ("js", sa.JSON())]
+        N = {b: hostile(b, j + shift + 1) for j, (b, _) in enumerate(bases)}
+        md = sa.MetaData()
+        t = sa.Table("hd", md, sa.Column("id", sa.Integer, primary_key=True, autoincrement=False),
+                     *[sa.Column(N[b], typ) for b, typ in bases])
+        rows = []
+        for i in range(3):
+            x = f"d{ctx.shard}.{k}.{i}"
+            rows.append({"id": i + 1, N["tag"]: x, N["itag"]: 7 + i, N["otag"]: x, N["mood"]: rng.choice(list(Mood)),
+                         N["js"]: {"k": [i, None, x]}})
+        eng, fake = recording_engine(url)
+        d = {"fake": url.split(":")[0], "paramstyle": eng.dialect.paramstyle, "names": sorted(N.values())}
+        n0 = len(calls["bind"])
+        try:
+            with eng.connect() as c:
+                c.execute(sa.insert(t), rows[0])
+                c.execute(sa.insert(t), rows[1:])
+        except Exception as e:
+            if not library_raised(e):
+                raise
+            ctx.violation(f"fake-insert-raised-{type(e).__name__}", f"{d}: {e!r}"[:400], d)
+            eng.dispose()
+            continue
+        eng.dispose()
+        bc = calls["bind"][n0:]
+        ctx.count("bind_hook_calls", len(bc))
+        if len(bc) != 4 * len(rows):
+            ctx.violation("bind-hook-call-count-hostile-names", f"{len(bc)} bind hook calls for {len(rows)} rows x 4 hooks ({d})", d)
+        delivered = []
+        for sql, params in fake.statements():
+            if not (sql or "").lstrip().startswith("INSERT"):
+                continue
+            for ps_ in (params if isinstance(params, list) else [params]):
+                delivered.append(list(ps_.values()) if isinstance(ps_, dict) else list(ps_))
+        # (a dialect may batch the executemany into one multi-VALUES statement: judge the values)
+        flat = [g for dl in delivered for g in dl]
+        strs = {g for g in flat if isinstance(g, (str, int)) and not isinstance(g, bool)}
+        # JSON wire form is driver specific (str, or psycopg's Json wrapper): where the dialect's JSON
+        # type has a bind processor the raw dict must not reach the driver, and a str form must decode
+        json_processed = t.c[N["js"]].type._cached_bind_processor(eng.dialect) is not None
+        raw_dicts = [g for g in flat if isinstance(g, dict)]
+        jsons = [json.loads(g) for g in flat if isinstance(g, str) and g.startswith("{")]
+        ok = True
+        for r in rows:
+            x = r[N["tag"]]
+            want = {f"B[{x}]", r[N["itag"]] * 10 + 1, f"B[OB[{x}]]", r[N["mood"]].name}
+            ctx.count("fake_bind_values_checked", len(want) + 1)
+            if not want <= strs or (json_processed and raw_dicts) or (jsons and r[N["js"]] not in jsons):
+                ok = False
+        if not ok:
+            ctx.violation("fake-bind-processing-hostile-names",
+                          f"{d}: the driver received {delivered[:2]} for rows {[{k2: repr(v) for k2, v in r.items()} for r in rows[:2]]}", d)
+        ctx.seen("fake_bind_paramstyle", f"{d['fake']}/{d['paramstyle']}")
+        ctx.case({"part": "D", "fake": d["fake"], "shift": shift % len(NAME_PATTERNS)}, nontrivial=True)
 
 
 def library_raised(e):
